@@ -599,11 +599,11 @@ def sites():
         return {"model": _obs_tensor(g["initializers"][0]), "value": _obs_array(v._get_value())}
 
     out.append(Site("constant(value=arr)", "flat", "constant(value)", lambda a: op.constant(value=a), const_read()))
-    out.append(Site("const(arr)", "flat", "const", lambda a: op.const(a), const_read()))
-    out.append(Site("const(arr, dtype)", "flat", "const", lambda a: op.const(a, a.dtype), const_read()))
+    out.append(Site("const(arr)", "flat", "const(ndarray)", lambda a: op.const(a), const_read()))
+    out.append(Site("const(arr, dtype)", "flat", "const(ndarray)", lambda a: op.const(a, a.dtype), const_read()))
     out.append(Site("initializer(arr)", "flat", "initializer", lambda a: initializer(a), init_read))
-    out.append(Site("_future.initializer(arr)", "flat", "_future.initializer", lambda a: fut.initializer(a), init_read))
-    out.append(Site("_future.initializer(arr, dtype)", "flat", "_future.initializer",
+    out.append(Site("_future.initializer(arr)", "flat", "_future.initializer(ndarray)", lambda a: fut.initializer(a), init_read))
+    out.append(Site("_future.initializer(arr, dtype)", "flat", "_future.initializer(ndarray)",
                     lambda a: fut.initializer(a, a.dtype), init_read))
 
     def arg_call(a):
@@ -638,9 +638,9 @@ def sites():
         a = _first_attr_tensor(_build_bytes(v), "Constant", "value")
         return {"model": _obs_tensor(W.tensor(a["t"])), "value": _obs_array(v._get_value())}
 
-    out.append(Site("const(nested list)", "nestlist", "const", lambda l: op.const(l), nested_read))
-    out.append(Site("const(nested list, dtype)", "nestlist", "const", lambda l: op.const(l, np.int32), nested_read))
-    out.append(Site("_future.initializer(nested list)", "nestlist", "_future.initializer",
+    out.append(Site("const(nested list)", "nestlist", "const(nested list)", lambda l: op.const(l), nested_read))
+    out.append(Site("const(nested list, dtype)", "nestlist", "const(nested list)", lambda l: op.const(l, np.int32), nested_read))
+    out.append(Site("_future.initializer(nested list)", "nestlist", "_future.initializer(nested list)",
                     lambda l: fut.initializer(l), init_read))
 
     def ats_read(a):
@@ -1354,7 +1354,8 @@ def replay(ck: core.Check, doc) -> bool:
             print(f"{k}: {w}")
         return bool(probs)
     if kind == "attr_kind":
-        desc, build, exp = attr_kind_cases()[case["index"]]
+        allc = attr_kind_cases()
+        desc, build, exp = next((c for c in allc if c[0] == case.get("desc")), None) or allc[case["index"]]
         try:
             bad = judge_attr(build(), exp)
         except Exception as e:  # noqa: BLE001
@@ -1362,7 +1363,8 @@ def replay(ck: core.Check, doc) -> bool:
         print(f"{desc}: {bad or 'ok'}")
         return bool(bad)
     if kind == "wrong_kind":
-        desc, cname, vk, call = wrong_kind_cases()[case["index"]]
+        allc = wrong_kind_cases()
+        desc, cname, vk, call = next((c for c in allc if c[0] == case.get("desc")), None) or allc[case["index"]]
         o = core.safe(call)
         print(f"{desc}: {'accepted' if o[0] == 'ok' else 'raises ' + o[1]}")
         return not (o[0] == "err" and o[1] == "TypeError")
